@@ -29,7 +29,7 @@ impl PhoneticMethod {
         // Load candidate selections file.
         let selections = if let Ok(file) = std::fs::read(config.get_user_phonetic_selection_data())
         {
-            serde_json::from_slice(&file).unwrap()
+            serde_json::from_slice(&file).unwrap_or_default()
         } else {
             HashMap::with_hasher(RandomState::new())
         };
@@ -38,7 +38,7 @@ impl PhoneticMethod {
         let (modified, autocorrect) = {
             if let Ok(mut file) = File::open(config.get_user_phonetic_autocorrect()) {
                 let modified = file.metadata().unwrap().modified().unwrap();
-                let autocorrect = serde_json::from_slice(&read(&mut file)).unwrap();
+                let autocorrect = serde_json::from_slice(&read(&mut file)).unwrap_or_default();
                 (modified, autocorrect)
             } else {
                 (
@@ -132,7 +132,7 @@ impl Method for PhoneticMethod {
                 config.get_user_phonetic_selection_data(),
                 serde_json::to_string(&self.selections).unwrap(),
             )
-            .unwrap();
+            .ok();
         }
 
         // Reset to defaults
@@ -145,7 +145,7 @@ impl Method for PhoneticMethod {
             // Update the auto correct entries if only the file was modified in the meantime.
             if modified > self.modified {
                 self.suggestion.user_autocorrect =
-                    serde_json::from_slice(&read(&mut file)).unwrap();
+                    serde_json::from_slice(&read(&mut file)).unwrap_or_default();
                 self.modified = modified;
             }
         }
